@@ -96,30 +96,36 @@ structure Ctx where
 def snapshotsJ (s : List (String × List OFR)) : J :=
   J.mkObj (s.map (fun (k, objs) => (k, .arr (objs.map OFR.json))))
 
-/-- `MapV1`: the assignments to `res`, in order, with the early returns of the code. -/
-def mapV1 (c : Ctx) : List (String × J) :=
-  let res := [("binding", J.str c.binding)]
-  if c.btype = .onStartup then res else
-  let res := if c.includeSnapshots.length > 0 || c.includeAll then
-      res ++ [("snapshots", if c.snapshots.length > 0 then snapshotsJ c.snapshots else .obj [])]
-    else res
-  if c.btype = .validating then res ++ [("type", .str "Validating"), ("review", .str c.review)] else
-  if c.btype = .mutating then res ++ [("type", .str "Mutating"), ("review", .str c.review)] else
+/-- `MapV1`, the "snapshots" step: set when the binding includes snapshots; `{}` when the map is empty. -/
+def snapPart (c : Ctx) : List (String × J) :=
+  if c.includeSnapshots.length > 0 || c.includeAll then
+    [("snapshots", if c.snapshots.length > 0 then snapshotsJ c.snapshots else .obj [])]
+  else []
+
+/-- `MapV1` after the "snapshots" step: the chain of early returns, in the order of the code. -/
+def typePart (c : Ctx) : List (String × J) :=
+  if c.btype = .validating then [("type", .str "Validating"), ("review", .str c.review)] else
+  if c.btype = .mutating then [("type", .str "Mutating"), ("review", .str c.review)] else
   if c.btype = .conversion then
-    res ++ [("type", .str "Conversion"), ("fromVersion", .str c.fromVersion), ("toVersion", .str c.toVersion),
-            ("review", .str c.review)] else
-  if c.group ≠ "" then res ++ [("type", .str "Group"), ("groupName", .str c.group)] else
-  if c.btype = .schedule then res ++ [("type", .str "Schedule")] else
-  if c.btype ≠ .kubernetes || c.type = "" then res else
-  let res := res ++ [("type", .str c.type)]
-  let res := if c.watchEvent ≠ "" then res ++ [("watchEvent", .str c.watchEvent)] else res
-  if c.type = "Synchronization" then
-    res ++ [("objects", if c.objects.length = 0 then .arr [] else .arr (c.objects.map OFR.json))]
+    [("type", .str "Conversion"), ("fromVersion", .str c.fromVersion), ("toVersion", .str c.toVersion),
+     ("review", .str c.review)] else
+  if c.group ≠ "" then [("type", .str "Group"), ("groupName", .str c.group)] else
+  if c.btype = .schedule then [("type", .str "Schedule")] else
+  if c.btype ≠ .kubernetes || c.type = "" then [] else
+  [("type", J.str c.type)] ++
+  (if c.watchEvent ≠ "" then [("watchEvent", J.str c.watchEvent)] else []) ++
+  (if c.type = "Synchronization" then
+    [("objects", if c.objects.length = 0 then J.arr [] else J.arr (c.objects.map OFR.json))]
   else if c.type = "Event" then
     match c.objects with
-    | [] => res ++ [("object", .null)] ++ (if c.jqSet then [("filterResult", .str "")] else [])
-    | o :: _ => res ++ o.map          -- for k, v := range objMap { res[k] = v }
-  else res
+    | [] => [("object", J.null)] ++ (if c.jqSet then [("filterResult", J.str "")] else [])
+    | o :: _ => o.map          -- for k, v := range objMap { res[k] = v }
+  else [])
+
+/-- `MapV1`: the assignments to `res`, in order (onStartup returns right after `binding`). -/
+def mapV1 (c : Ctx) : List (String × J) :=
+  if c.btype = .onStartup then [("binding", J.str c.binding)]
+  else [("binding", J.str c.binding)] ++ snapPart c ++ typePart c
 
 def v0Event : String → String
   | "Added" => "add" | "Modified" => "update" | "Deleted" => "delete" | _ => ""
